@@ -516,7 +516,7 @@ void cljp_main_loop(CSRMatrix* S, std::vector<int>& col_ptr, std::vector<int>& c
     {
         weights.resize(S->n_rows);
         new_coarse_list.resize(S->n_rows);
-        c_dep_cache.resize(S->n_rows);
+        c_dep_cache.resize(S->n_rows, -1);
         unassigned.resize(S->n_rows);
         std::iota(unassigned.begin(), unassigned.end(), 0);
     }
